@@ -5,6 +5,7 @@
   an evicted input) are never the cause: the counter invariant (CM.Proofs.Count) excludes them.
 -/
 import CM.Proofs.Term
+import CM.Proofs.WorldFrame
 namespace CM
 
 /-- what a raising task establishes about the denotation -/
@@ -37,18 +38,21 @@ theorem den_leaf (g : Graph) (d : DenCfg) (n : Nat) (he : (g.node n).edge = none
     simp only [denNode, hu, Bool.false_eq_true, ↓reduceIte, he]
 
 theorem world_call_err (w w' : World) (n : Nat) (f : String) (pos : List Val) (kwn : List String) (kwv : List Val) (e : Err)
-    (h : w.call n f pos kwn kwv = (.error e, w')) : e = .user f := by
+    (h : w.call n f pos kwn kwv = (.error e, w')) : e = .user f ∧ w.failAt ≠ [] := by
   unfold World.call at h
   simp only at h
   split at h
-  · injection h with h1 _; injection h1 with h1; exact h1.symm
+  · next hc =>
+    injection h with h1 _; injection h1 with h1
+    refine ⟨h1.symm, ?_⟩
+    intro h0; rw [h0] at hc; simp at hc
   · split at h
     · injection h with h1 _; cases h1
     · split at h <;> (injection h with h1 _; cases h1)
 
 theorem big_raised (g : Graph) (d : DenCfg) (ok : GraphOK g) : ∀ (f : Nat) (t : Task) (hp : Bool) (m : Mem) (G : Ghost) (e : Err) (m' : Mem),
     MemSound g d m → CInv g m G none none → PreC g G hp t → big g f t m = .raised e m' →
-    (∃ fn, e = .user fn) ∨ PostErr g d t e := by
+    (∃ fn, e = .user fn ∧ m.world.failAt ≠ []) ∨ PostErr g d t e := by
   have ht := topo_of_ok g ok
   intro f
   induction f with
@@ -202,8 +206,11 @@ theorem big_raised (g : Graph) (d : DenCfg) (ok : GraphOK g) : ∀ (f : Nat) (t 
           obtain ⟨G1, hi1, fr1, kp1⟩ := big_count g ok f (.req n r) hp _ G y m1 hi hpre1 hq
           obtain ⟨hs1, hr⟩ := big_sound g d ok f (.req n r) _ y m1 hs trivial hq
           have hrun1 := hrun.step ht fr1 kp1
+          have hfx := big_fixed g f (.req n r) { m with world := m.world }
+          rw [hq] at hfx
+          have hfa : m1.world.failAt = m.world.failAt := congrArg (·.1) hfx
           cases ih (.prog n (k y)) hp m1 G1 e m' hs1 hi1 ⟨hrun1, hk y, fun h => (hnc' h).2 y⟩ hb with
-          | inl hu => exact Or.inl hu
+          | inl hu => obtain ⟨fn, h1, h2⟩ := hu; exact Or.inl ⟨fn, h1, by rw [← hfa]; exact h2⟩
           | inr hpe =>
             right
             simp only [PostErr, Post] at hpe hr ⊢
@@ -358,8 +365,11 @@ theorem big_raised (g : Graph) (d : DenCfg) (ok : GraphOK g) : ∀ (f : Nat) (t 
           obtain ⟨G1, hi1, fr1, kp1⟩ := big_count g ok f (.req n r) hp m G y m1 hi hpre1 hq
           obtain ⟨hs1, hr⟩ := big_sound g d ok f (.req n r) m y m1 hs trivial hq
           have hrun1 := hrun.step ht fr1 kp1
+          have hfx := big_fixed g f (.req n r) m
+          rw [hq] at hfx
+          have hfa : m1.world.failAt = m.world.failAt := congrArg (·.1) hfx
           cases ih (.reqs n rest (y :: acc)) hp m1 G1 e m' hs1 hi1 ⟨hrun1, fun h => (hnc' h).2⟩ hb with
-          | inl hu => exact Or.inl hu
+          | inl hu => obtain ⟨fn, h1, h2⟩ := hu; exact Or.inl ⟨fn, h1, by rw [← hfa]; exact h2⟩
           | inr hpe =>
             right
             simp only [PostErr, Post] at hpe hr ⊢
